@@ -66,9 +66,15 @@ def getaddrinfo(host, *pa, **kwa):   # named like the real one: it shows up as t
 class _GuardSocket(socket.socket):
     def connect_ex(self, addr):
         try:
-            ok = addr[0] == LOOP and int(addr[1]) in ALLOWED_PORTS
+            port = addr[1]
+            valid = isinstance(port, int) and not isinstance(port, bool) and 0 <= port <= 65535
+            ok = addr[0] == LOOP and valid and port in ALLOWED_PORTS
         except Exception:
-            ok = False
+            valid, ok = False, False
+        if not valid:
+            # not an address at all (port out of range, wrong type ...): let the real call raise what it raises
+            # (OverflowError / TypeError, before anything touches the network) - the guard must not hide that
+            return super().connect_ex((LOOP, addr[1]) if isinstance(addr, tuple) and len(addr) == 2 else addr)
         if not ok:
             return errno.ECONNREFUSED
         return super().connect_ex(addr)
